@@ -20,33 +20,41 @@ const (
 	OrdSwap      = 3
 	OrdShuffle   = 4
 	OrdSwapPair  = 5 // swap canonical positions Arg>>32 and Arg&0xffffffff
+	OrdSwapNamed = 6 // swap the keys rendered as KeyA and KeyB (replay files)
 )
 
 // OrderRule fixes the permutation of one map-range execution ("visit") of an
 // operation; visits are numbered from 0 in execution order within the operation.
 type OrderRule struct {
-	Visit int32
-	Site  int32
-	Mode  int32
-	Arg   uint64
+	Site int32 // site id; -1 matches any site
+	Nth  int32 // n-th execution of that site within the operation (from 0)
+	Mode int32
+	Arg  uint64
+	KeyA string
+	KeyB string
 }
 
 // OrderCfg configures the seam for one operation of one task.
 type OrderCfg struct {
-	Seed     uint64   // stream seed (exploration)
-	Weights  [5]uint8 // relative weight of modes 0..4 (exploration); all zero = canonical
-	SiteOnly []int32  // if non-empty: only these sites are perturbed
-	Explicit bool     // replay: use Rules, everything else canonical
-	Rules    []OrderRule
+	CaptureKeys bool     // record canonical key names of every visit (minimiser)
+	Seed        uint64   // stream seed (exploration)
+	Weights     [5]uint8 // relative weight of modes 0..4 (exploration); all zero = canonical
+	SiteOnly    []int32  // if non-empty: only these sites are perturbed
+	Explicit    bool     // replay: use Rules, everything else canonical
+	Rules       []OrderRule
 }
 
 // Visit records what happened at one map-range execution.
 type Visit struct {
 	Site      int32
+	Nth       int32 // n-th execution of Site within the operation
 	N         int32
 	Mode      int32
 	Arg       uint64
+	KeyA      string
+	KeyB      string
 	Effective bool
+	Keys      []string // canonical key names, only when CaptureKeys
 }
 
 const maxVisits = 4096
@@ -103,19 +111,29 @@ func EndOp() []Visit {
 	return out
 }
 
-// decide returns the mode and argument for the next visit at site with n keys.
+// decide returns the permutation rule for the next visit at site with n keys.
 //
 //go:norace
-func decide(site int32, n int) (int32, uint64, int32) {
+func decide(site int32, n int) (OrderRule, int32) {
 	o := &ord[slot()]
 	v := o.nvisit
 	o.nvisit++
-	mode, arg := int32(OrdCanonical), uint64(0)
+	nth := int32(0)
+	lim := v
+	if lim > maxVisits {
+		lim = maxVisits
+	}
+	for i := int32(0); i < lim; i++ {
+		if o.visits[i].Site == site {
+			nth++
+		}
+	}
+	r := OrderRule{Site: site, Nth: nth}
 	if o.cfg.Explicit {
 		for i := range o.cfg.Rules {
-			r := &o.cfg.Rules[i]
-			if r.Visit == v {
-				mode, arg = r.Mode, r.Arg
+			x := &o.cfg.Rules[i]
+			if (x.Site == site || x.Site == -1) && x.Nth == nth {
+				r.Mode, r.Arg, r.KeyA, r.KeyB = x.Mode, x.Arg, x.KeyA, x.KeyB
 				break
 			}
 		}
@@ -136,64 +154,80 @@ func decide(site int32, n int) (int32, uint64, int32) {
 			pick := uint32(r1 % uint64(o.wsum))
 			for m, w := range o.cfg.Weights {
 				if pick < uint32(w) {
-					mode = int32(m)
+					r.Mode = int32(m)
 					break
 				}
 				pick -= uint32(w)
 			}
-			arg = r2
+			r.Arg = r2
 		}
 	}
-	return mode, arg, v
+	return r, v
 }
 
 //go:norace
-func record(v int32, site int32, n int, mode int32, arg uint64, eff bool) {
+func capture() bool { return ord[slot()].cfg.CaptureKeys }
+
+//go:norace
+func record(v int32, r OrderRule, n int, eff bool, keys []string) {
 	o := &ord[slot()]
 	if v < maxVisits {
-		o.visits[v] = Visit{site, int32(n), mode, arg, eff}
+		o.visits[v] = Visit{r.Site, r.Nth, int32(n), r.Mode, r.Arg, r.KeyA, r.KeyB, eff, keys}
 	} else {
 		o.dropped++
 	}
 }
 
-// permute rearranges idx (initially 0..n-1, the canonical order) per mode/arg.
-func permute(idx []int, mode int32, arg uint64) {
+// permute rearranges idx (initially 0..n-1, the canonical order) per rule.
+func permute(idx []int, r OrderRule, name func(int) string) {
 	n := len(idx)
 	if n < 2 {
 		return
 	}
-	switch mode {
+	switch r.Mode {
 	case OrdReverse:
 		slices.Reverse(idx)
 	case OrdRotate:
-		k := int(arg % uint64(n))
+		k := int(r.Arg % uint64(n))
 		tmp := append(append([]int{}, idx[k:]...), idx[:k]...)
 		copy(idx, tmp)
 	case OrdSwap:
-		k := int(arg % uint64(n-1))
+		k := int(r.Arg % uint64(n-1))
 		idx[k], idx[k+1] = idx[k+1], idx[k]
 	case OrdShuffle:
-		x := arg
+		x := r.Arg
 		for i := n - 1; i > 0; i-- {
 			j := int(next64(&x) % uint64(i+1))
 			idx[i], idx[j] = idx[j], idx[i]
 		}
 	case OrdSwapPair:
-		a, b := int(arg>>32), int(arg&0xffffffff)
+		a, b := int(r.Arg>>32), int(r.Arg&0xffffffff)
 		if a < n && b < n {
+			idx[a], idx[b] = idx[b], idx[a]
+		}
+	case OrdSwapNamed:
+		a, b := -1, -1
+		for i := 0; i < n; i++ {
+			switch name(i) {
+			case r.KeyA:
+				a = i
+			case r.KeyB:
+				b = i
+			}
+		}
+		if a >= 0 && b >= 0 {
 			idx[a], idx[b] = idx[b], idx[a]
 		}
 	}
 }
 
-func orderFor(site int32, n int) []int {
-	mode, arg, v := decide(site, n)
+func orderFor(site int32, n int, name func(int) string) []int {
+	r, v := decide(site, n)
 	idx := make([]int, n)
 	for i := range idx {
 		idx[i] = i
 	}
-	permute(idx, mode, arg)
+	permute(idx, r, name)
 	eff := false
 	for i, x := range idx {
 		if i != x {
@@ -201,8 +235,23 @@ func orderFor(site int32, n int) []int {
 			break
 		}
 	}
-	record(v, site, n, mode, arg, eff)
+	var keys []string
+	if capture() {
+		keys = make([]string, n)
+		for i := range keys {
+			keys[i] = name(i)
+		}
+	}
+	record(v, r, n, eff, keys)
 	return idx
+}
+
+func keyName[K any](k K) string {
+	switch x := any(k).(type) {
+	case string:
+		return x
+	}
+	return fmt.Sprint(k)
 }
 
 // Ordered iterates m in simulator-chosen order (range-over-func, go1.23).
@@ -213,7 +262,7 @@ func Ordered[M ~map[K]V, K cmp.Ordered, V any](m M, site int32) iter.Seq2[K, V] 
 			ks = append(ks, k)
 		}
 		slices.Sort(ks)
-		for _, i := range orderFor(site, len(ks)) {
+		for _, i := range orderFor(site, len(ks), func(i int) string { return keyName(ks[i]) }) {
 			k := ks[i]
 			v, ok := m[k]
 			if !ok {
@@ -235,7 +284,7 @@ func OrderedAny[M ~map[K]V, K comparable, V any](m M, site int32) iter.Seq2[K, V
 			ks = append(ks, k)
 		}
 		slices.SortStableFunc(ks, func(a, b K) int { return cmp.Compare(fmt.Sprintf("%#v", a), fmt.Sprintf("%#v", b)) })
-		for _, i := range orderFor(site, len(ks)) {
+		for _, i := range orderFor(site, len(ks), func(i int) string { return keyName(ks[i]) }) {
 			k := ks[i]
 			v, ok := m[k]
 			if !ok {
@@ -257,7 +306,7 @@ func OrderedReflectKeys(keys []reflect.Value, site int32) []reflect.Value {
 		return cmp.Compare(fmt.Sprintf("%#v", a.Interface()), fmt.Sprintf("%#v", b.Interface()))
 	})
 	out := make([]reflect.Value, len(keys))
-	for j, i := range orderFor(site, len(keys)) {
+	for j, i := range orderFor(site, len(keys), func(i int) string { return keyName(keys[i].Interface()) }) {
 		out[j] = keys[i]
 	}
 	return out
